@@ -34,26 +34,26 @@ type Schema struct {
 	Kind   Kind
 	Format string
 	// validations
-	Min, Max                 *int64
-	XMin, XMax               bool
-	MultipleOf               *int64
-	MinLen, MaxLen           *int64
-	Pattern                  string
-	EnumS                    []string
-	EnumI                    []int64
-	MinItems, MaxItems       *int64
-	Unique                   bool
-	MinProps, MaxProps       *int64
-	ReadOnly                 bool
-	Default                  interface{}
-	Nullable                 *bool // x-nullable
-	Items                    *Schema
-	Props                    []Prop
-	Addl                     *Schema // map values (KMap) or additionalProperties next to properties (KObject)
-	Ref                      string
-	AllOf                    []*Schema // KObject with AllOf members (refs or inline objects)
-	Discriminator            string
-	XClass                   string
+	Min, Max           *int64
+	XMin, XMax         bool
+	MultipleOf         *int64
+	MinLen, MaxLen     *int64
+	Pattern            string
+	EnumS              []string
+	EnumI              []int64
+	MinItems, MaxItems *int64
+	Unique             bool
+	MinProps, MaxProps *int64
+	ReadOnly           bool
+	Default            interface{}
+	Nullable           *bool // x-nullable
+	Items              *Schema
+	Props              []Prop
+	Addl               *Schema // map values (KMap) or additionalProperties next to properties (KObject)
+	Ref                string
+	AllOf              []*Schema // KObject with AllOf members (refs or inline objects)
+	Discriminator      string
+	XClass             string
 }
 
 func I(v int64) *int64 { return &v }
